@@ -8,7 +8,13 @@ expected value itself.
 
 Case file (little endian):  "C10C" u32 ncases, then per case
   u32 case_id, u8 kind (0 exhaustive-length, 1 random-large, 2 extended-length), u8 fill, u8 allsplits, u8 nsplits,
-  u32 len, data[len], md5[16], sha1[20], sha256[32], u32 crc32, u32 fnv1a32, u64 fnv1a64, u32 splits[nsplits]
+  u32 len, data[len], md5[16], sha1[20], sha256[32], u32 crc32, u32 fnv1a32, u64 fnv1a64,
+  u8 seeded_flags (bit0: crc, bit1: fnv), u32 seed32, u64 seed64, u32 crc32(data, seed32), u32 fnv1a32(data, seed32),
+  u64 fnv1a64(data, seed64)    -- expected values for an arbitrary NON-default running value,
+  u32 splits[nsplits]
+
+make_cases_mt / make_cases_mt_tsan write the (smaller) input sets of the concurrency stages in the same format
+(kind 3): the harness runs them from 8 threads at once and compares with these single-threaded expected values.
 """
 import hashlib
 import os
@@ -33,11 +39,51 @@ def fnv1a(data, h32=FNV32_START, h64=FNV64_START):
     return h32, h64
 
 
+def fnv1a_2(data, a32, a64, b32, b64):
+    """Two runs of the recurrence (default start and a non-default start) in one pass over the data."""
+    for b in data:
+        a32 = ((a32 ^ b) * FNV32_PRIME) & 0xFFFFFFFF
+        a64 = ((a64 ^ b) * FNV64_PRIME) & 0xFFFFFFFFFFFFFFFF
+        b32 = ((b32 ^ b) * FNV32_PRIME) & 0xFFFFFFFF
+        b64 = ((b64 ^ b) * FNV64_PRIME) & 0xFFFFFFFFFFFFFFFF
+    return a32, a64, b32, b64
+
+
+def pick_seeds(r):
+    u = r.random()
+    s32 = 0 if u < 0.1 else 0xFFFFFFFF if u < 0.2 else 1 if u < 0.25 else r.getrandbits(32)
+    u = r.random()
+    s64 = 0 if u < 0.1 else 0xFFFFFFFFFFFFFFFF if u < 0.2 else 1 if u < 0.25 else r.getrandbits(64)
+    return s32, s64
+
+
+def pack_case(cid, kind, fill, allsplits, data, splits, r):
+    n = len(data)
+    s32, s64 = pick_seeds(r)
+    if n <= 65536:
+        h32, h64, g32, g64 = fnv1a_2(data, FNV32_START, FNV64_START, s32, s64)
+        flags = 3
+    else:
+        h32, h64 = fnv1a(data)
+        g32 = g64 = 0
+        flags = 1
+    return b"".join((
+        struct.pack("<IBBBBI", cid, kind, fill, allsplits, len(splits), n), data,
+        hashlib.md5(data).digest(), hashlib.sha1(data).digest(), hashlib.sha256(data).digest(),
+        struct.pack("<IIQ", zlib.crc32(data) & 0xFFFFFFFF, h32, h64),
+        struct.pack("<BIQIIQ", flags, s32, s64, zlib.crc32(data, s32) & 0xFFFFFFFF, g32, g64),
+        struct.pack("<%dI" % len(splits), *splits)))
+
+
 def self_test():
     """Published vectors (FNV reference test suite; RFC 1321/3174/6234 suites; CRC-32 check value)."""
     assert fnv1a(b"") == (0x811C9DC5, 0xCBF29CE484222325)
     assert fnv1a(b"a") == (0xE40C292C, 0xAF63DC4C8601EC8C)
     assert fnv1a(b"foobar") == (0xBF9CF968, 0x85944171F73967E8)
+    # seeded forms of the oracles compose (so the stored "non-default running value" expectations are right)
+    assert fnv1a(b"bar", *fnv1a(b"foo")) == fnv1a(b"foobar") and fnv1a_2(b"bar", *fnv1a(b"foo"), 5, 7)[:2] == fnv1a(b"foobar")
+    assert fnv1a_2(b"xyz", 1, 2, 5, 7)[2:] == fnv1a(b"xyz", 5, 7)
+    assert zlib.crc32(b"6789", zlib.crc32(b"12345")) == 0xCBF43926 and zlib.crc32(b"", 0x1234) == 0x1234
     assert zlib.crc32(b"123456789") == 0xCBF43926
     assert hashlib.md5(b"abc").hexdigest() == "900150983cd24fb0d6963f7d28e17f72"
     assert hashlib.sha1(b"abc").hexdigest() == "a9993e364706816aba3e25717850c26c9cd0d89d"
@@ -110,14 +156,7 @@ def _gen_shard(job):
         else:
             data = fill_bytes(fill, n, seed)
             splits = [] if allsplits else _splits(random.Random(n * 4 + fill), n)
-        h32, h64 = fnv1a(data)
-        out.append(struct.pack("<IBBBBI", cid, kind, fill, allsplits, len(splits), n))
-        out.append(data)
-        out.append(hashlib.md5(data).digest())
-        out.append(hashlib.sha1(data).digest())
-        out.append(hashlib.sha256(data).digest())
-        out.append(struct.pack("<IIQ", zlib.crc32(data) & 0xFFFFFFFF, h32, h64))
-        out.append(struct.pack("<%dI" % len(splits), *splits))
+        out.append(pack_case(cid, kind, fill, allsplits, data, splits, random.Random("c10-seeds-%d-%d" % (seed, cid))))
         count += 1
         nbytes += n
     with open(path + ".tmp", "wb") as f:
@@ -135,3 +174,43 @@ def make_cases(ctx):
         res = list(ex.map(_gen_shard, jobs))
     ctx["c10_generated"] = {"cases": sum(c for c, _ in res), "input_bytes": sum(b for _, b in res)}
     return ["cases=" + base]
+
+
+# ------------------------------------------------------------------------------------------------
+# concurrency stages: small per-shard input sets, lengths around every block / padding boundary
+
+MT_SHARDS = 4
+MT_TSAN_SHARDS = 2
+
+
+def _gen_mt_shard(job):
+    path, tier, seed, shard, tag = job
+    r = random.Random("c10-mt-%s-%s-%d-%d" % (tag, tier, seed, shard))
+    lengths = list(range(0, 131)) + list(range(183, 194)) + list(range(247, 258)) + list(range(311, 322))
+    lengths += [r.randint(322, 4096) for _ in range(24)] + [64 * r.randint(100, 1024) + r.randint(-9, 1) for _ in range(4)]
+    if tag == "tsan":
+        lengths = [n for n in lengths if n <= 4096]
+    r.shuffle(lengths)            # thread t takes records t, t+8, ...: every thread gets a mix of lengths
+    out = [pack_case(i, 3, 3, 0, r.randbytes(n), [], r) for i, n in enumerate(lengths)]
+    with open(path + ".tmp", "wb") as f:
+        f.write(b"C10C" + struct.pack("<I", len(out)))
+        f.write(b"".join(out))
+    os.replace(path + ".tmp", path)
+    return len(out)
+
+
+def _make_mt(ctx, tag, nshards):
+    self_test()
+    base = os.path.join(ctx["workdir"], "c10_mtcases_" + tag)
+    jobs = [("%s.%d.bin" % (base, s), ctx["tier"], int(ctx["seed"]), s, tag) for s in range(nshards)]
+    with ProcessPoolExecutor(max_workers=nshards) as ex:
+        list(ex.map(_gen_mt_shard, jobs))
+    return ["cases=" + base]
+
+
+def make_cases_mt(ctx):
+    return _make_mt(ctx, "asan", MT_SHARDS)
+
+
+def make_cases_mt_tsan(ctx):
+    return _make_mt(ctx, "tsan", MT_TSAN_SHARDS)
